@@ -132,4 +132,73 @@ example : shakeOneShot SqiGen.Keccak.keccakF SqiGen.Keccak.shake256_absorb_rate 
   rw [shake256_eq_spec]; exact SqiProofs.C20Kat.kat_shake256_empty
 example : GoodParams 136 0x1F ∧ GoodParams 168 0x1F ∧ GoodParams 136 0x06 := by decide
 
+/-! ## (c) hash_to_challenge: the hash input is an injective encoding of (j(E_com), j(E_pk), message) -/
+open SqiModel.Challenge in
+/-- With fixed-width encodings of the two j-invariants (width w = FP2_ENCODED_BYTES), the buffer handed to SHAKE256
+    determines both encodings and the message: in particular two inputs that differ in any message byte, or in the
+    message length, are different hash inputs.  (That different inputs give different challenges is the collision
+    resistance of SHAKE256 — an assumption, not a theorem.) -/
+theorem hashInput_injective (w : Nat) (j1 j2 m j1' j2' m' : List UInt8)
+    (h1 : j1.length = w) (h1' : j1'.length = w) (h2 : j2.length = w) (h2' : j2'.length = w)
+    (h : hashInput j1 j2 m = hashInput j1' j2' m') : j1 = j1' ∧ j2 = j2' ∧ m = m' :=
+  SqiProofs.Challenge.hashInput_inj w j1 j2 m j1' j2' m' h1 h1' h2 h2' h
+
+open SqiModel.Challenge in
+/-- a different message (some byte differs, or the length differs) gives a different hash input -/
+theorem hashInput_message_sensitive (j1 j2 m m' : List UInt8) (h : m ≠ m') :
+    hashInput j1 j2 m ≠ hashInput j1 j2 m' := by
+  intro e
+  exact h (List.append_cancel_left e)
+
+open SqiModel.Challenge in
+theorem hashInput_length_sensitive (j1 j2 m m' : List UInt8) (h : m.length ≠ m'.length) :
+    hashInput j1 j2 m ≠ hashInput j1 j2 m' :=
+  hashInput_message_sensitive j1 j2 m m' (fun e => h (by rw [e]))
+
+open SqiModel.Challenge in
+/-- the challenge (all three variants: `iters` = 0 resp. SQIsign2D_heuristic_challenge_hash_iteration) depends on the
+    curves only through the encodings of their j-invariants: curve models with the same j-invariant encodings (projective
+    rescalings, isomorphic models — C08 proves `ec_j_inv` invariant) and the same message give the same challenge. -/
+theorem challenge_depends_only_on_j (xof : List UInt8 → Nat → List UInt8) (nwords iters : Nat)
+    (j1 j2 j1' j2' msg : List UInt8) (e1 : j1 = j1') (e2 : j2 = j2') :
+    hashToChallenge xof nwords iters j1 j2 msg = hashToChallenge xof nwords iters j1' j2' msg := by
+  rw [e1, e2]
+
+open SqiModel.Challenge in
+/-- the challenge is a function of the hash input alone -/
+theorem challenge_factors (xof : List UInt8 → Nat → List UInt8) (nwords iters : Nat) (j1 j2 msg : List UInt8) :
+    hashToChallenge xof nwords iters j1 j2 msg
+      = (1, leNat (iter (fun d => xof d (8 * nwords)) iters (xof (hashInput j1 j2 msg) (8 * nwords)))) := rfl
+
+example : SqiModel.Challenge.hashInput [1, 2] [3, 4] [5] ≠ SqiModel.Challenge.hashInput [1, 2] [3, 4] [5, 0] := by decide
+
+/-! ## (d) the deterministic generator -/
+/-- `randombytes(x, n)` writes exactly n bytes (E = the block cipher, 16-byte blocks) -/
+theorem randombytes_length (E : List UInt8 → List UInt8 → List UInt8) (hE : ∀ k v, (E k v).length = 16)
+    (st : Drbg.Model.St) (n : Nat) : (Drbg.Model.randombytes E st n).1.length = n :=
+  SqiProofs.Drbg.randombytes_length E hE st n
+
+/-- same seed, same request sequence ⇒ same bytes: the whole history is a function of (seed, personalization, request
+    sizes) — there is no other input (no clock, no counter outside the state) in the model that corresponds to the code -/
+theorem randombytes_deterministic (E : List UInt8 → List UInt8 → List UInt8) (seed seed' : List UInt8)
+    (pers pers' : Option (List UInt8)) (reqs reqs' : List Nat) (h1 : seed = seed') (h2 : pers = pers') (h3 : reqs = reqs') :
+    Drbg.Model.run E (Drbg.Model.init E seed pers) reqs = Drbg.Model.run E (Drbg.Model.init E seed' pers') reqs' := by
+  rw [h1, h2, h3]
+
+/-- the block cipher specification meets the hypothesis `hE` on a concrete instance and reproduces FIPS 197 C.3 -/
+example : (Aes.aes256 ((List.range 32).map (·.toUInt8)) ((List.range 16).map (fun i => (17 * i).toUInt8))).length = 16 := by
+  rw [SqiProofs.C20Kat.kat_aes256]; rfl
+
+/-! ## (e) secure clear (model; that the store is not elided is a run-time observation) -/
+open SqiModel.Challenge in
+theorem secure_clear_zeroes (buf : List UInt8) (size : Nat) (h : size ≤ buf.length) (i : Nat) (hi : i < size) :
+    (secureClear buf size)[i]'(by rw [SqiProofs.Challenge.secureClear_length buf size h]; omega) = 0 :=
+  SqiProofs.Challenge.secureClear_zero buf size h i hi
+
+open SqiModel.Challenge in
+theorem secure_clear_frame (buf : List UInt8) (size : Nat) (h : size ≤ buf.length) (i : Nat) (hi : size ≤ i)
+    (hb : i < buf.length) :
+    (secureClear buf size)[i]'(by rw [SqiProofs.Challenge.secureClear_length buf size h]; omega) = buf[i] :=
+  SqiProofs.Challenge.secureClear_rest buf size h i hi hb
+
 end SqiProps.C20
